@@ -16,7 +16,12 @@ observation of an untouched deep copy of the record taken before any write:
                                  feature entries (compared as a multiset)
   <fmt>-fixed-point-order        ... and in the same order, i.e. the identical text
 
-with <fmt> in {json, gbk}.
+with <fmt> in {json, gbk}. The oracle is the observation itself (`_c10_observe.dump`): every value is
+read from the real objects before and after; nothing is recomputed with antismash code.
+
+Cases whose input has a feature under which a clause is known to fail on the pinned tree (see
+`input_tags`, RELEVANT) are reported under the clause name '<clause>@<tag+tag>', all others under the
+bare clause name; FINDING_CLASSES only ever match the '@' names.
 """
 from __future__ import annotations
 
@@ -28,8 +33,10 @@ RULE = ("records of length 360 with six genes on a 60-base raster, built with th
         "families A1-A3 (all 1/2/3-subsets with repetition of rule options = contiguous anchor genes x "
         "neighbourhood 0/15/45, on linear/circular layouts incl. genes at 0, at the record end and over the "
         "origin), AS (x subregion layouts), AX (x sideloaded protoclusters), B (17 gene shapes x 15 "
-        "decorations x anchored or not), M (no areas, generic features, fungal taxon, other seeds); thorough "
-        "adds wider anchor ranges, all layouts for triples and seeded random mixtures. "
+        "decorations (gene functions, notes, PFAM/TIGR/modular domains, motifs, modules, prepeptides) x anchored "
+        "or not), M (no areas, generic features, fungal taxon, other seeds), T (hand-made layouts off the raster); "
+        "analysis annotations only on genes inside a region, as in the pipeline; thorough adds wider anchor "
+        "ranges, all layouts for pairs/triples and seeded random records off the raster. "
         "Non-trivial = record has >= 1 region and >= 3 feature classes; distinct = distinct spec.")
 EXHAUSTIVE = {"quick": True, "thorough": False}
 N_SHARDS = 48
@@ -81,8 +88,10 @@ def missing_links(record: Any) -> list[tuple[Any, Any]]:
 
 
 def input_tags(record: Any) -> list[str]:
-    """ Features of the input record that known findings are conditioned on (plain coordinates
-        and attribute values of the record as built, no function under test involved) """
+    """ Features of the input record that known findings are conditioned on: plain coordinates and
+        attribute values of the record as built. Two tags ask a real function of other properties how
+        this input behaves (connect_locations, get_cds_features_within_location); none of this is
+        used by the oracle, only to name the clause and to classify known findings. """
     # pylint: disable=too-many-branches
     from antismash.common.secmet.features import Prepeptide
     from antismash.common.secmet.features.protocluster import SideloadedProtocluster
@@ -368,8 +377,11 @@ def run_shard(shard: dict, run: Any) -> None:
             return
         run_one(spec, run)
     if tier == "thorough":
-        while not run.out_of_time():
+        # seeded random records until the budget is used (a fixed number when there is no deadline)
+        done = 0
+        while not run.out_of_time() and (run.deadline or done < 150):
             run_one(specs.random_spec(run.rng), run)
+            done += 1
 
 
 def replay(case: dict) -> list[str]:
